@@ -115,6 +115,24 @@ impl Base {
         Base { name: name.to_string(), snapshot: Snapshot::take(&root), tokens, expire }
     }
 
+    /// The Authorization header for a caller `<key>[@<form>]`. Forms = the spellings the
+    /// server accepts for one and the same token (user_id.rs: case-insensitive scheme via the
+    /// typed header, `utilities::unquote` strips any leading and trailing double quotes):
+    /// plain `Bearer t` | quoted `Bearer "t"` (the JSON form the login response has) |
+    /// lower `bearer t` | quoted2 `Bearer ""t""` | leftquote `Bearer "t`.
+    pub(crate) fn auth_header(&self, caller: &str) -> Option<String> {
+        let (key, form) = caller.split_once('@').unwrap_or((caller, "plain"));
+        let t = self.token(key)?;
+        Some(match form {
+            "plain" => format!("Bearer {t}"),
+            "quoted" => format!("Bearer \"{t}\""),
+            "lower" => format!("bearer {t}"),
+            "quoted2" => format!("Bearer \"\"{t}\"\""),
+            "leftquote" => format!("Bearer \"{t}"),
+            f => engine::machinery_failure(&format!("unknown token presentation form {f}")),
+        })
+    }
+
     pub(crate) fn token(&self, caller: &str) -> Option<String> {
         match caller {
             "none" => None,
@@ -197,10 +215,10 @@ impl Lab {
 
     fn call_inner(&mut self, base: &Base, req: &Req) -> Resp {
         self.requests += 1;
-        let token = base.token(&req.caller);
+        let auth = base.auth_header(&req.caller);
         let s = self.server.as_ref().unwrap_or_else(|| engine::machinery_failure("call before reset"));
         let rt = &self.rt;
-        match engine::catch(|| rt.block_on(s.call(&req.method, &req.uri, token.as_deref(), req.body.as_ref()))) {
+        match engine::catch(|| rt.block_on(s.call_auth(&req.method, &req.uri, auth.as_deref(), req.body.as_ref()))) {
             Ok(r) => r,
             Err(p) => {
                 // the server objects may be in any state now: restart at the next reset
